@@ -867,10 +867,16 @@ def consumer_traces(pm: ProtocolModel, while_iters: int = 2) -> list[Trace]:
 
     def h_collect(it, f, sv, a, k, n):
         i = sum(1 for e in it.events if e.kind == "COLLECT") + 1
-        c = it.decide(f"collect#{i}", 2, ["batch", "empty"])
+        c = it.decide(f"collect#{i}", 3, ["batch", "empty", "refresh-only"])
         if c == 1:
             it.emit("COLLECT", n, n=i, items=[])
             return SeqVal("list", [])
+        if c == 2:
+            # a batch made of nothing but a token-refresh (empty) checkpoint - what the map/parallel resubmitter sends before it re-runs a branch: a real API
+            # call without a single update, whose response still carries the next token (r9_C05: the token adopted only `if updates`)
+            items = [new_item(it, f"b{i}.empty", empty=True)]
+            it.emit("COLLECT", n, n=i, items=[x.key() for x in items], items_v=items)
+            return SeqVal("list", items)
         # an empty (token-refresh) checkpoint, a fire-and-forget update and a synchronous update, in this order:
         # the list of updates sent is shorter than the batch, so index-aligned bookkeeping shows up
         items = [new_item(it, f"b{i}.empty", empty=True), new_item(it, f"b{i}.async", sync=False), new_item(it, f"b{i}.sync")]
